@@ -123,3 +123,39 @@ pub fn trace(op: &'static str, text: &str, detail: i64) {
         }
     });
 }
+
+// ---- C12: crate-private token operations and the two token rules --------------------
+
+/// `Token::replace_referenced_tokens` (crate-private).
+pub fn token_replace_referenced_tokens(token: &mut crate::nodes::Token, code: &str) {
+    token.replace_referenced_tokens(code);
+}
+
+/// `Token::shift_token_line` (crate-private).
+pub fn token_shift_token_line(token: &mut crate::nodes::Token, amount: isize) {
+    token.shift_token_line(amount);
+}
+
+/// `Token::filter_comments` (crate-private).
+pub fn token_filter_comments(
+    token: &mut crate::nodes::Token,
+    filter: impl Fn(&crate::nodes::Trivia) -> bool,
+) {
+    token.filter_comments(filter);
+}
+
+/// The crate-private rule `replace_referenced_tokens` applied to a block, as bundling does.
+pub fn rule_replace_referenced_tokens(block: &mut crate::nodes::Block, code: &str) {
+    use crate::rules::FlawlessRule;
+    let resources = Resources::from_memory();
+    let context = crate::rules::ContextBuilder::new("verif.lua", &resources, code).build();
+    crate::rules::ReplaceReferencedTokens::default().flawless_process(block, &context);
+}
+
+/// The crate-private rule `shift_token_line` applied to a block, as bundling does.
+pub fn rule_shift_token_line(block: &mut crate::nodes::Block, amount: isize) {
+    use crate::rules::FlawlessRule;
+    let resources = Resources::from_memory();
+    let context = crate::rules::ContextBuilder::new("verif.lua", &resources, "").build();
+    crate::rules::ShiftTokenLine::new(amount).flawless_process(block, &context);
+}
